@@ -149,6 +149,11 @@ func runC17(r *Run) {
 				}
 			}},
 			{"NotifyOnChange", true, func(tk *Task, x int) { l.NotifyOnChange(func(int) {}) }},
+			{"NotifyOnChange-several", true, func(tk *Task, x int) { // a component wiring up its observers
+				for i := 0; i < 2+x%3; i++ {
+					l.NotifyOnChange(func(int) {})
+				}
+			}},
 		}
 		switch v := l.(type) {
 		case *limit.VegasLimit:
